@@ -89,8 +89,8 @@ Proof.
       * rewrite route1_unhandled in Ho by (rewrite handled_toR; exact Eh). injection Ho as <-. cbn [map].
         unfold handled_name in Eh. apply orb_false_iff in Eh. destruct Eh as [E1 E2].
         rewrite (fromR_toR tbl k g Hk E1). constructor; [|constructor]. split; [exact Hg|].
-        apply coupled_gate_small. destruct Hg as [_ [_ [Hks _]]]. unfold kindshape in Hks. rewrite E1, E2 in Hks.
-        apply Nat.leb_le. exact Hks.
+        apply coupled_gate_small. destruct Hg as [_ [_ [Hks _]]]. apply kindshape_small; [exact Hks|].
+        unfold handled_name. rewrite E1, E2. reflexivity.
     + apply (IH (S k) outs'); auto. intros j g' Hj. replace (S k + j) with (k + S j) by lia. apply Htbl. exact Hj.
 Qed.
 
@@ -119,14 +119,7 @@ Qed.
 Lemma emitted_coupled t N g o : coupled_gate t N g = true -> emitted_from g o -> coupled_gate t N o = true.
 Proof.
   intros Hc [Hi [Hnd [Hk _]]].
-  assert (Hlen : List.length (qubits o) <= 2).
-  { unfold kindshape, nqubits in Hk. unfold qubits. rewrite app_length.
-    destruct (Route.is_ctrl (gname o)); [|destruct (Route.is_swapk (gname o))].
-    - apply andb_prop in Hk. destruct Hk as [Hk _]. apply andb_prop in Hk. destruct Hk as [H1 H2].
-      apply Nat.eqb_eq in H1. apply Nat.eqb_eq in H2. lia.
-    - apply andb_prop in Hk. destruct Hk as [Hk _]. apply andb_prop in Hk. destruct Hk as [H1 H2].
-      apply Nat.eqb_eq in H1. apply Nat.eqb_eq in H2. lia.
-    - apply Nat.leb_le in Hk. lia. }
+  assert (Hlen : List.length (qubits o) <= 2) by (apply kindshape_len; exact Hk).
   unfold coupled_gate in *. destruct (qubits o) as [|x [|y [|z r]]] eqn:Eo; try reflexivity; [|cbn [List.length] in Hlen; lia].
   assert (Hx : In x (qubits g)) by (apply Hi; left; reflexivity).
   assert (Hy : In y (qubits g)) by (apply Hi; right; left; reflexivity).
@@ -230,14 +223,7 @@ Proof.
     - exists pre. split; [reflexivity|]. eapply Forall_impl; [|exact Hpre]. intros g Hg. split; [exact Hg|].
       (* any pair couples through the cavity: distinct qubits inside the register *)
       destruct Hg as [Hrg [Hnd [Hk _]]]. apply in_range_iff in Hrg.
-      assert (Hlen : List.length (qubits g) <= 2).
-      { unfold kindshape, nqubits in Hk. unfold qubits. rewrite app_length.
-        destruct (Route.is_ctrl (gname g)); [|destruct (Route.is_swapk (gname g))].
-        - apply andb_prop in Hk. destruct Hk as [Hk _]. apply andb_prop in Hk. destruct Hk as [H1 H2].
-          apply Nat.eqb_eq in H1. apply Nat.eqb_eq in H2. lia.
-        - apply andb_prop in Hk. destruct Hk as [Hk _]. apply andb_prop in Hk. destruct Hk as [H1 H2].
-          apply Nat.eqb_eq in H1. apply Nat.eqb_eq in H2. lia.
-        - apply Nat.leb_le in Hk. lia. }
+      assert (Hlen : List.length (qubits g) <= 2) by (apply kindshape_len; exact Hk).
       unfold coupled_gate. destruct (qubits g) as [|a [|b [|? ?]]]; try reflexivity; [|cbn [List.length] in Hlen; lia].
       inversion Hnd as [|? ? Hn _]; subst. inversion Hrg as [|? ? Ha Hr']; subst. inversion Hr' as [|? ? Hb _]; subst.
       unfold coupled. replace (a =? b) with false by (symmetry; apply Nat.eqb_neq; intros ->; apply Hn; left; reflexivity).
@@ -272,14 +258,7 @@ Proof.
     { (* reuse the argument of transpile_structure through a trivial topology: coupled_gate is not needed for success *)
       eapply Forall_impl; [|exact Hpre]. intros g Hg. split; [exact Hg|].
       destruct Hg as [Hrg [Hnd [Hk _]]]. apply in_range_iff in Hrg.
-      assert (Hlen : List.length (qubits g) <= 2).
-      { unfold kindshape, nqubits in Hk. unfold qubits. rewrite app_length.
-        destruct (Route.is_ctrl (gname g)); [|destruct (Route.is_swapk (gname g))].
-        - apply andb_prop in Hk. destruct Hk as [Hk _]. apply andb_prop in Hk. destruct Hk as [H1 H2].
-          apply Nat.eqb_eq in H1. apply Nat.eqb_eq in H2. lia.
-        - apply andb_prop in Hk. destruct Hk as [Hk _]. apply andb_prop in Hk. destruct Hk as [H1 H2].
-          apply Nat.eqb_eq in H1. apply Nat.eqb_eq in H2. lia.
-        - apply Nat.leb_le in Hk. lia. }
+      assert (Hlen : List.length (qubits g) <= 2) by (apply kindshape_len; exact Hk).
       unfold coupled_gate. destruct (qubits g) as [|a [|b [|? ?]]]; try reflexivity; [|cbn [List.length] in Hlen; lia].
       inversion Hnd as [|? ? Hn _]; subst. inversion Hrg as [|? ? Ha Hr']; subst. inversion Hr' as [|? ? Hb _]; subst.
       unfold coupled. replace (a =? b) with false by (symmetry; apply Nat.eqb_neq; intros ->; apply Hn; left; reflexivity).
